@@ -2,7 +2,7 @@ from vdriver import Group
 META = {'level': 'other'}
 def groups(tier):
     n = 5 if tier == 'quick' else 7
-    K = dict(unit='json_string', harness='C38/strings.c', entry='h_string', kind='bounded', backend=['sat', 'cadical'], timeout=900,
+    K = dict(unit='json_string', harness='C38/strings.c', entry='h_string', kind='bounded', backend=['sat', 'cadical'], timeout=2400,
              checks=['--bounds-check', '--pointer-check'], replay='string')
     return [Group('string.decode', unwind=n + 3, unwind_by={'JsonParser__parse_string#0': n + 1}, defines=['CXX_FIXED_STORAGE', f'CXX_VEC_CAP={4 * n + 8}', f'N={n}'],
                   bound=f'inputs of at most {n} bytes, every byte value in every position',
